@@ -746,6 +746,41 @@ def rule_accessors(ctx, rid):
         else:
             ctx.violation(rid, fi, c, "a handler's level is read/written without the name=='console' guard: " + why,
                           node=fi.node)
+        if action == 'level':
+            # what get_level reports is what the wrapper saves and later restores: it must be the console handler's own
+            # level (or None when there is no such handler), not a value derived from other logging state
+            c3 = "get_level returns the 'console' handler's level, or None"
+            bad3 = unread3 = None
+            n3 = 0
+            for e in Evaluator(P).run(fi):
+                if e.kind != 'return':
+                    continue
+                n3 += 1
+                v = e.value
+                if v is None or v == NONE or (is_c(v) and v[1] is None):
+                    continue
+                if v[0] == 'attr' and v[2] == 'level':
+                    continue
+                if v[0] == 'call' and v[1] == 'builtins.next' and len(v[2]) == 2 and v[2][1] == NONE \
+                        and v[2][0][0] == 'comp' and v[2][0][2][0] == 'attr' and v[2][0][2][2] == 'level':
+                    continue            # next((h.level for h in <console handlers>), None)
+                wrong = is_c(v) or (v[0] == 'ref' and v[1].startswith('logging.')) or \
+                    (v[0] == 'meth' and v[1] == 'getEffectiveLevel') or \
+                    (v[0] == 'attr' and v[2] in ('disable', 'level') and v[1][0] == 'attr')
+                if wrong:
+                    bad3 = 'a path of get_level returns %s instead of the level of the console handler: the verbosity ' \
+                           'wrapper saves this value and restores it after the call, leaving the console at a level nobody ' \
+                           'set' % show(v)[:60]
+                    break
+                unread3 = show(v)[:80]
+            if bad3:
+                ctx.violation(rid, fi, c3, bad3, node=fi.node)
+            elif unread3:
+                ctx.undecided(rid, fi, c3, 'cannot read the returned value %s' % unread3)
+            elif n3 == 0:
+                ctx.undecided(rid, fi, c3, 'no return path')
+            else:
+                ctx.passed(rid, fi, c3, '%d return path(s)' % n3)
         # an accessor must not configure logging: the verbosity wrapper calls it before the logger is set up and
         # restores nothing in that case, so a handler created here outlives the call at the override level
         c2 = '%s does not set up or reconfigure logging' % fi.name
